@@ -409,6 +409,106 @@ def r10g(ctx):
         raise AnalysisError("R10g: no clone builder found")
 
 
+PRIMITIVE_ATTACH = {"_append", "append", "insert", "extend", "extend_cells", "extend_rows", "_Element__append"}
+
+
+def r10h(ctx):
+    """clone=True means: the table keeps a copy, the caller keeps the original.
+
+    Setters of Table and Row take the caller's row / cell objects and a `clone` flag (default True).  Under clone=True what is attached to
+    the table must be a copy, so that later edits of the caller's object do not reach the table (and attaching does not pull the node out
+    of wherever it was).  Rule, per method with a `clone` parameter and an item parameter: every call that attaches the item either
+    forwards the flag (`clone=clone`) to a callee that has one, or — for a primitive attach (append/insert/extend/extend_cells …) — is
+    reached only when the flag is false (`clone is False` / `not clone` in force) or after the item was re-bound to its `.clone` under
+    the flag.
+    """
+    repo = ctx.repo
+    ctx.rule("R10h", "setters with a clone flag attach a copy whenever the flag may be true", floor=10)
+    n = 0
+    for cname in ("Table", "Row"):
+        c = repo.cls(cname)
+        for name, fs in sorted(c.methods.items()):
+            f = fs[0]
+            params = [a.arg for a in f.all_params()]
+            if "clone" not in params or name.lstrip("_").startswith("get") or name.startswith("_get"):
+                continue
+            items = [a.arg for a in f.all_params() if a.arg not in ("self", "clone") and a.annotation is not None
+                     and any(k in ast.unparse(a.annotation) for k in ("Row", "Cell", "Column"))]
+            if not items:
+                continue
+            # elements of an item collection (for cell in cells)
+            elems = set(items)
+            for lp in [x for x in walk_no_nested(f.node) if isinstance(x, ast.For) and isinstance(x.target, ast.Name)]:
+                if any(isinstance(y, ast.Name) and y.id in elems for y in ast.walk(lp.iter)):
+                    elems.add(lp.target.id)
+            cloned_under_flag = {a.targets[0].id for a in walk_no_nested(f.node) if isinstance(a, ast.Assign) and isinstance(a.targets[0], ast.Name)
+                                 and isinstance(a.value, ast.Attribute) and a.value.attr == "clone" and isinstance(a.value.value, ast.Name) and a.value.value.id == a.targets[0].id
+                                 and any(pol and isinstance(t, ast.Name) and t.id == "clone" for t, pol in structural_guards(a, stop=f.node))}
+            for call in [x for x in walk_no_nested(f.node) if isinstance(x, ast.Call)]:
+                args = list(call.args) + [k.value for k in call.keywords if k.arg != "clone"]
+                passed = [a for a in args if isinstance(a, ast.Name) and a.id in elems]
+                if not passed:
+                    continue
+                cn = call_name(call)
+                g = c.lookup(cn) or repo.find_func(f"element_cached:{cn}")
+                has_flag = g is not None and any(a.arg == "clone" for a in g.all_params())
+                if not has_flag and cn not in PRIMITIVE_ATTACH:
+                    continue
+                n += 1
+                gs = structural_guards(call, stop=f.node)
+
+                def flag_false(t, pol):
+                    # `clone is False` taken, `not clone` taken, `clone` not taken
+                    if isinstance(t, ast.UnaryOp) and isinstance(t.op, ast.Not):
+                        return flag_false(t.operand, not pol)
+                    if isinstance(t, ast.BoolOp) and isinstance(t.op, ast.Or) and not pol:
+                        return any(flag_false(v, False) for v in t.values)
+                    if isinstance(t, ast.BoolOp) and isinstance(t.op, ast.And) and pol:
+                        return any(flag_false(v, True) for v in t.values)
+                    if isinstance(t, ast.Compare) and len(t.ops) == 1 and isinstance(t.left, ast.Name) and t.left.id == "clone" and isinstance(t.comparators[0], ast.Constant):
+                        if isinstance(t.ops[0], (ast.Is, ast.Eq)) and t.comparators[0].value is False:
+                            return pol
+                        if isinstance(t.ops[0], (ast.Is, ast.Eq)) and t.comparators[0].value is True:
+                            return not pol
+                    if isinstance(t, ast.Name) and t.id == "clone":
+                        return not pol
+                    return False
+
+                why = None
+                if has_flag:
+                    fw = [k.value for k in call.keywords if k.arg == "clone"]
+                    gp = [a.arg for a in g.all_params()]
+                    pos = gp.index("clone") - (1 if gp and gp[0] == "self" else 0)
+                    if not fw and pos < len(call.args):
+                        fw = [call.args[pos]]
+                    if not fw:
+                        ok = True  # the callee's own default (True) applies: it copies
+                    else:
+                        v = fw[0]
+                        ok = (isinstance(v, ast.Name) and v.id == "clone") or (isinstance(v, ast.Constant) and v.value is True) \
+                            or any(flag_false(t, pol) for t, pol in gs) or all(a.id in cloned_under_flag for a in passed) \
+                            or (isinstance(v, ast.Constant) and v.value is False and all(_fresh_local(f, a) for a in passed))
+                        if not ok:
+                            why = f"passes clone={norm(v, 20)} although the caller's flag may be true"
+                else:
+                    ok = any(flag_false(t, pol) for t, pol in gs) or all(a.id in cloned_under_flag for a in passed)
+                    if not ok:
+                        why = "a primitive attach that copies nothing, reachable with the flag true"
+                ctx.instance("R10h", f"{f.file}:{f.ident}", f"{norm(call, 50)}: " + ("copy or flag forwarded" if ok else why), ok=ok, nontrivial=True, line=call.lineno)
+                if not ok:
+                    ctx.report("R10h", f, call, norm(call, 60),
+                               f"{cname}.{name}(clone=True) can attach the caller's own object ({why}): the table then holds the very node the caller keeps — later edits of "
+                               f"it change the table, and passing the same list to a second row moves the nodes out of the first")
+    if n == 0:
+        raise AnalysisError("R10h: no setter with a clone flag found")
+
+
+def _fresh_local(f, name_node) -> bool:
+    """the local was re-bound to a constructor result in this function (e.g. `cell = Cell()` when none was given)"""
+    return any(isinstance(a, ast.Assign) and isinstance(a.targets[0], ast.Name) and a.targets[0].id == name_node.id and isinstance(a.value, ast.Call)
+               and isinstance(a.value.func, ast.Name) and a.value.func.id[:1].isupper() for a in walk_no_nested(f.node))
+
+
 def run(ctx):
     r10a(ctx)
     r10b(ctx)
@@ -416,6 +516,7 @@ def run(ctx):
     r10d(ctx)
     r10f(ctx)
     r10g(ctx)
+    r10h(ctx)
     r10e(ctx)
 
 
@@ -428,6 +529,11 @@ _DOC = "src/odfdo/document.py"
 _XP = "src/odfdo/xmlpart.py"
 _EL = "src/odfdo/element.py"
 SEEDS = [
+    Seed("Row.set_cells fast path no longer asks for clone is False", "fault", _R,
+         "        if start == 0 and clone is False and (len(cells) >= self.width):", "        if start == 0 and len(cells) >= self.width:", "R10h"),
+    Seed("Table.append_row appends the caller's row", "fault", _T, "        elif clone:\n            row = row.clone\n        # Appending a repeated row accepted", "        # Appending a repeated row accepted", "R10h"),
+    Seed("Row.set_cells: flag tested the other way round", "neutral", _R,
+         "        if start == 0 and clone is False and (len(cells) >= self.width):", "        if not clone and start == 0 and (len(cells) >= self.width):"),
     Seed("XmlPart.clone shares the container once the part is parsed", "fault", "src/odfdo/xmlpart.py",
          "                setattr(clone, name, self.container.clone)\n",
          "                if self.__tree is None:\n                    setattr(clone, name, self.container.clone)\n                else:\n                    setattr(clone, name, self.container)\n", "R10g"),
